@@ -545,10 +545,15 @@ func (vc *VC) freeVarSpecVal(b *Val) *Val {
 // isTransparent: small, loop-free helper without contract, defined in the
 // repository: its body is its semantics.
 func (vc *VC) isTransparent(fr *Frame, fn *ssa.Function) bool {
-	if len(fn.Blocks) == 0 || fn.Pkg == nil {
+	pkg := fn.Pkg
+	if pkg == nil && fn.Origin() != nil {
+		// an instance of a generic function: defined where its origin is
+		pkg = fn.Origin().Pkg
+	}
+	if len(fn.Blocks) == 0 || pkg == nil {
 		return false
 	}
-	path := fn.Pkg.Pkg.Path()
+	path := pkg.Pkg.Path()
 	if !strings.HasPrefix(path, "github.com/AdguardTeam/AdGuardDNS") {
 		return false
 	}
